@@ -696,6 +696,9 @@ def check_C16(tier, seed, replay=None):
         options.append(opt(maxexpr=nb, rev=True))
         options.append(opt(maxexpr=nb, rev=True, stats=False, allowinv=True))
         options.append(opt(maxexpr=nb, stats=False, debug=True))
+    # the largest budget there is, alone and with one Stats value that accumulates over all these parses (a finite budget
+    # together with a Stats value that already holds counts is not judged: the statement does not say which count is meant)
+    options += [opt(maxexpr=-1, sharestats=True), opt(maxexpr=-1)]
     nopt = len(options)
     # a long input of ill-formed bytes: more than a hundred errors are recorded before the budget is exhausted
     long_first = len(inputs)
@@ -708,7 +711,7 @@ def check_C16(tier, seed, replay=None):
     run.add_witnesses([f["id"] for f in findings.active("C16")], groups, inputs, options)
 
     def plan_for(g):
-        ois = [i for i in range(nopt) if not (g.maydiverge and options[i]["memo"])]   # F3: not run in bulk
+        ois = [i for i in range(nopt) if not (g.maydiverge and (options[i]["memo"] or options[i]["maxexpr"] == -1))]   # F3: not run in bulk; no budget: never returns
         pl = [(ii, oi) for ii in range(nin) for oi in ois]
         if g.gi % 4 == 0:
             pl += [(ii, oi) for ii in range(long_first, long_first + 3) for oi in long_opts if not (g.maydiverge and options[oi]["memo"])]
